@@ -36,6 +36,10 @@ use tokio_websockets::ServerBuilder;
 /// how long a flow of which one direction has ended cleanly waits for the other direction to end too
 const CLOSE_GRACE: Duration = Duration::from_secs(10);
 
+/// how long a flow of which one direction has failed lets the other direction finish what it is doing (ending the flow in
+/// the same instant drops the other direction in the middle of a flush and loses what it was writing out)
+const ERROR_GRACE: Duration = Duration::from_secs(2);
+
 pub(super) mod message {
     use std::fmt::Debug;
 
@@ -224,10 +228,12 @@ where
     let inbound_stream = inbound_stream.filter_map(|r| future::ready(r.ok())).map(InboundIn::try_into);
 
     // A direction that ends cleanly has flushed and closed its sink. The other direction goes on until it ends too (then
-    // the flow ends at once), for at most `close_grace`; an error ends the flow at once. Dropping the sockets as soon as
+    // the flow ends at once), for at most `close_grace`, or ERROR_GRACE after a failure. Dropping the sockets as soon as
     // one direction is done would close them with unread input, which resets the connection and destroys what is still
     // in flight in either direction (the tail of the answer, the rest of an upload).
     let one_done = AtomicBool::new(false);
+    // datagram relays (no grace of their own) end with the first direction that ends
+    let error_grace = close_grace.min(ERROR_GRACE);
 
     let p_s_c = async {
         match outbound_stream.forward(inbound_sink).await {
@@ -237,7 +243,12 @@ where
                 }
                 Err::<(), _>(relay::Result::Close(End::Peer, End::Server))
             }
-            Err(e) => Err(relay::Result::Err(End::Peer, End::Server, e)),
+            Err(e) => {
+                if !one_done.swap(true, Ordering::Relaxed) {
+                    tokio::time::sleep(error_grace).await;
+                }
+                Err(relay::Result::Err(End::Peer, End::Server, e))
+            }
         }
     };
 
@@ -249,7 +260,12 @@ where
                 }
                 Err::<(), _>(relay::Result::Close(End::Client, End::Server))
             }
-            Err(e) => Err(relay::Result::Err(End::Client, End::Server, e)),
+            Err(e) => {
+                if !one_done.swap(true, Ordering::Relaxed) {
+                    tokio::time::sleep(error_grace).await;
+                }
+                Err(relay::Result::Err(End::Client, End::Server, e))
+            }
         }
     };
 
